@@ -198,6 +198,33 @@ def run(res):
             res.violation('graph operations disagree with the definition on a graph with nodes %r' % (names,),
                           {'adjacency': adj, 'names': [repr(x) for x in names], 'X': X, 'reach': sorted(r),
                            'expected_reach': sorted(seen), 'sub': sub, 'expected_sub': exp_sub})
+    # histories of add_node / add_edge (existing and new nodes, existing and new edges, new endpoints) against the model
+    for _ in range(300 if quick else 3000):
+        adj = random_digraph(rng, 4)
+        n = len(adj)
+        G = impl_graph(adj, list(range(n)))
+        g = enc_graph(observed_adj(G))
+        ops, answers = [], []
+        for _k in range(rng.choice([2, 4, 7])):
+            if rng.random() < 0.4:
+                v = rng.randrange(n + 3)
+                ops.append('n %d' % v)
+                try:
+                    G.add_node(v)
+                    answers.append('ok')
+                except Exception as e:
+                    answers.append('ERR ' + type(e).__name__)
+            else:
+                u, v = rng.randrange(n + 3), rng.randrange(n + 3)
+                ops.append('e %d %d' % (u, v))
+                try:
+                    G.add_edge(u, v)
+                    answers.append('ok')
+                except Exception as e:
+                    answers.append('ERR ' + type(e).__name__)
+        lines.append('GRAPHOPS|%s|%s' % (g, ';'.join(ops)))
+        impl.append(' ; '.join(answers) + ' => ' + canon(G))
+        descr.append((observed_adj(impl_graph(adj, list(range(n)))), ('graphops', ops)))
     model = lean_batch(lines)
     bad = 0
     kinds = {}
